@@ -13,6 +13,7 @@ RULES = {
     "C09.R4": "packing typestate: QBitsTensor.__init__ stores a packed payload on every path; create() forwards all its arguments in order",
     "C09.R6": "lifecycle ops keep the tensor: the detach and _to_copy handlers (run by Parameter(), freeze and Module.to on a frozen weight) rebuild with the source's own qtype, axis, group size, size and stride, and pass payload / scale / zero-point through the op only",
     "C09.R7": "compact storage: the packer every frozen low-bit weight goes through stores ceil(rows x bits / 8) payload rows for every row count (rules C04.R2/R3), and the 8-bit detach/move handlers that Parameter(), freeze and Module.to run keep payload and scale through the op only (rules of C05.R5)",
+    "C09.R8": "copies keep behaving: a qtype is a value object (a dataclass that deepcopy duplicates), so qtypes are compared with == / in, never with `is` (identity holds for the library's singletons only until a frozen model is copied)",
     "C09.R5": "lifecycle ops: every class that can be a frozen weight has handlers for detach (Parameter), _to_copy (.to) and clone (deepcopy)",
 }
 
@@ -73,6 +74,7 @@ def run(chk):
     qweight_source(chk)
     packing(chk)
     lifecycle(chk)
+    qtype_identity(chk)
     from .c06 import moves_rule
     moves_rule(chk, r2="C09.R6", r4="C09.R6")
     from ..report import AliasedCheck
@@ -198,3 +200,31 @@ def lifecycle(chk):
                 chk.ok("C09.R5", site, f"{cls} has a handler for {op} ({use})")
             else:
                 chk.bad("C09.R5", site, cls, f"{cls} lacks {op}", f"{cls} has no handler for {op}: the fallback dequantizes, so {use} does not return a {cls}", f"{use} on a frozen model whose weights are {cls}")
+
+
+def qtype_identity(chk):
+    """C09.R8: no identity comparison between qtypes anywhere in the package."""
+    from ..registries import qtype_table
+    repo = chk.repo
+    consts = set(qtype_table(repo))
+    n = 0
+
+    def is_qtype_expr(e):
+        t = U(e)
+        last = t.split(".")[-1]
+        return last.lstrip("_").endswith("qtype") or t in consts
+
+    for mi in repo.modules.values():
+        if not mi.rel.startswith("optimum/"):
+            continue
+        for nd in ast.walk(mi.tree):
+            if isinstance(nd, ast.Compare):
+                n += 1
+                operands = [nd.left] + list(nd.comparators)
+                for op, a, b in zip(nd.ops, operands, operands[1:]):
+                    if isinstance(op, (ast.Is, ast.IsNot)):
+                        none = any(isinstance(x, ast.Constant) and x.value is None for x in (a, b))
+                        if not none and (is_qtype_expr(a) or is_qtype_expr(b)) and not any(isinstance(x, ast.Call) and U(x.func) == "type" for x in (a, b)):
+                            chk.bad("C09.R8", f"{mi.rel}:{nd.lineno}", "", f"qtype compared by identity: {U(nd)[:60]}", f"`{U(nd)[:80]}` compares qtypes by identity: copy.deepcopy of a (frozen) model duplicates the qtype objects, so the test is false in the copy although the qtypes are equal",
+                                    "a frozen model with quantized activations, deep-copied, fed an already quantized input: the copy re-quantizes it with its own input scale and its outputs differ from the original's")
+    chk.ok("C09.R8", "package", f"{n} comparisons scanned: no qtype is compared with `is`")
